@@ -18,8 +18,10 @@ RULE = ("Hypothesis draws a configuration (round-robin line-up of cheap samplers
         "three (complete enumeration per configuration). Oracle: calibrate() raises that very exception; the history is the "
         "twin's prefix of completed batches, aligned; no non-daemon thread started by the call is alive; a subsequent "
         "calibrate(1) returns and appends one aligned batch. Non-trivial = the fault lands after >= 1 completed batch and not at "
-        "the first invocation of a batch.")
-ASSUMPTIONS = ["n_jobs = 1 (loky helper threads are daemons and not the subject)", "RL configurations run without a saving folder "
+        "the first invocation of a batch. Sub-check 'parallel': n_jobs = 2, a slow model, one invocation (chosen by Hypothesis) raises "
+        "while a sibling of the same batch is in flight.")
+ASSUMPTIONS = ["n_jobs = 1 in the enumerations (loky helper threads are daemons and not the subject); a separate sub-check runs "
+               "with n_jobs = 2 and asks only that no thread of the process still executes the model once calibrate() has raised", "RL configurations run without a saving folder "
                "(the RL scheduler cannot be checkpointed: known finding C04/rl-scheduler-unpicklable)",
                "a leaked thread is given 2 s to finish before it is reported; the harness then unblocks it itself"]
 SHARDS = {"quick": 8, "thorough": 16}
@@ -249,10 +251,126 @@ def check_faults(ctx: Ctx, case):
         shutil.rmtree(root, ignore_errors=True)
 
 
-SUBCHECKS = {"round_robin": check_faults, "rl": check_faults}
+# ---- model invocations dispatched to parallel workers (n_jobs = 2) ------------------------------------------------------
+@st.composite
+def parallel_cases(draw):
+    sp = draw(gen.space_spec(max_d=2, max_m=30))
+    lineup = draw(gen.lineup_spec(kinds=["halton", "rseq", "uniform"], min_len=1, max_len=2, max_bs=3))
+    for s in lineup:
+        s["bs"] = max(2, s["bs"])
+    cfg = {"space": sp, "lineup": lineup, "loss": {"kind": "stub"}, "model": "gauss", "D": 1, "N": 5,
+           "E": draw(st.integers(1, 2)), "seed": draw(st.integers(0, 2**32 - 2)), "n_jobs": 2, "verbose": False}
+    return {"cfg": cfg, "n": draw(st.integers(1, 3)), "pick": draw(st.integers(0, 10**6))}
+
+
+def executing(code, before):
+    """Threads (not in `before`) that are at this moment inside a frame of `code`."""
+    import sys
+
+    names = {t.ident: t.name for t in threading.enumerate() if t not in before}
+    out = []
+    for ident, frame in sys._current_frames().items():
+        f = frame
+        while f is not None and ident in names:
+            if f.f_code is code:
+                out.append(names[ident])
+                break
+            f = f.f_back
+    return out
+
+
+def check_parallel(ctx: Ctx, case):
+    """With n_jobs = 2 the model runs in joblib workers. One invocation (identified by the seed the calibrator hands it) raises
+    while its sibling is still simulating; once calibrate() has raised, no thread of this process may still be executing the
+    model, the history is the completed prefix and the object stays usable."""
+    import time
+
+    sub = "parallel"
+    cfg, n = case["cfg"], case["n"]
+    pure = models.get(cfg["model"], cfg["D"])
+    seen = []
+
+    def twin_model(theta, nn, seed):
+        seen.append(int(seed))
+        return pure(theta, nn, seed)
+    twin_model.__name__ = pure.__name__
+    with guard(ctx, "C11/exception", sub, case):
+        twin = calib.build(cfg, model=twin_model, loss=MeanAbsLoss(), n_jobs=1)
+        twin.calibrate(n)
+    ref = calib.hist_snapshot(twin)
+    if len(set(seen)) != len(seen):
+        ctx.exclude("parallel: two invocations received the same seed (fault not addressable)")
+        return
+    idx = case["pick"] % len(seen)
+    trigger = seen[idx]
+    per_row = cfg["E"]
+    b = int(ref["batch_num_samp"][idx // per_row])
+    in_batch = [i for i in range(len(seen)) if int(ref["batch_num_samp"][i // per_row]) == b]
+    one = dict(case, fault=["model", idx])
+    ctx.count(sub, one, b >= 1 and idx != in_batch[-1], [f"batch-tasks={len(in_batch)}", "fault-not-last-task" if idx != in_batch[-1]
+                                                          else "fault-last-task"])
+
+    def model(theta, nn, seed):
+        if int(seed) == trigger:
+            raise Marker(f"model#{idx}")
+        time.sleep(0.3)          # the simulation takes a moment
+        return pure(theta, nn, seed)
+    model.__name__ = pure.__name__
+    cal = calib.build(cfg, model=model, loss=MeanAbsLoss(), n_jobs=2)
+    before = set(threading.enumerate())
+    raised = None
+    try:
+        with watchdog(60, "parallel faulty calibrate"):
+            cal.calibrate(n)
+    except Marker as e:
+        raised = e
+    except Inconclusive:
+        raise
+    except Exception as e:  # noqa: BLE001
+        ctx.fail("C11/exception-not-propagated", f"n_jobs=2, fault in model invocation {idx}: calibrate() raised "
+                 f"{type(e).__name__}: {str(e)[:80]} instead of the injected exception", sub, one)
+        return
+    still = executing(model.__code__, before)
+    if raised is None or str(raised) != f"model#{idx}":
+        ctx.fail("C11/exception-not-propagated", f"n_jobs=2, fault in model invocation {idx} (batch {b}): calibrate() "
+                 f"{'returned normally' if raised is None else 'raised another fault: ' + str(raised)}", sub, one)
+        return
+    if still:
+        ctx.fail("C11/thread-left-running", f"n_jobs=2, fault in model invocation {idx} (batch {b}): calibrate() has raised but "
+                 f"thread(s) it started are still executing the model in this process: {still}", sub, one)
+        return
+    cur = calib.hist_snapshot(cal)
+    rows = int((ref["batch_num_samp"] < b).sum())
+    lens = {k: len(v) for k, v in cur.items()}
+    if set(lens.values()) != {rows} or cal.n_sampled_params != rows or cal.current_batch_index != b:
+        ctx.fail("C11/history-not-completed-prefix", f"n_jobs=2, fault in model invocation {idx} during batch {b}: record lengths "
+                 f"{lens}, counter {cal.n_sampled_params}, batch index {cal.current_batch_index}; expected {rows} rows", sub, one)
+        return
+    for k in calib.HIST:
+        if not calib.same_values(cur[k], ref[k][:rows]):
+            ctx.fail("C11/history-not-completed-prefix", f"n_jobs=2, fault in model invocation {idx}: {k} differs from the "
+                     "fault-free run's prefix", sub, one)
+            return
+    cal.model = pure
+    try:
+        with watchdog(60, "parallel follow-up"):
+            cal.calibrate(1)
+    except Inconclusive:
+        raise
+    except Exception as e:  # noqa: BLE001
+        ctx.fail("C11/not-reusable", f"n_jobs=2: after a fault in model invocation {idx} the next calibrate(1) raises "
+                 f"{type(e).__name__}: {str(e)[:100]}", sub, one)
+        return
+    if len(cal.losses_samp) <= rows or cal.current_batch_index != b + 1:
+        ctx.fail("C11/not-reusable", f"n_jobs=2: after a fault in model invocation {idx} the next calibrate(1) left "
+                 f"{len(cal.losses_samp)} rows, batch index {cal.current_batch_index}", sub, one)
+
+
+SUBCHECKS = {"round_robin": check_faults, "rl": check_faults, "parallel": check_parallel}
 
 
 def run(ctx: Ctx):
     drive(ctx, "round_robin", cases(False), check_faults, ctx.n(400, 4000), shrink=False)
     drive(ctx, "rl", cases(True), check_faults, ctx.n(240, 2400), shrink=False)
+    drive(ctx, "parallel", parallel_cases(), check_parallel, ctx.n(32, 320), shrink=False)
     ctx.exhaustive_axes["invocation indices of model, loss and samplers per configuration"] = not ctx.violations
